@@ -3,6 +3,7 @@ package aead8439
 import (
 	"bytes"
 	"encoding/hex"
+	"math/big"
 	"strings"
 	"testing"
 )
@@ -162,5 +163,42 @@ func TestXAEADVector(t *testing.T) {
 	pt, ok := XOpen(key, nonce, got, ad)
 	if !ok || string(pt) != sunscreen {
 		t.Fatalf("xopen failed")
+	}
+}
+
+// SolveBlock hits the requested accumulator, and acc+s mod 2^128 is the tag.
+func TestSolveBlock(t *testing.T) {
+	solved := 0
+	for trial := 0; trial < 400; trial++ {
+		key := seq(trial*7+1, 32)
+		key[3], key[17] = byte(trial), byte(trial>>3)
+		msg := make([]byte, 16*(1+trial%9))
+		for i := range msg {
+			msg[i] = byte(i*31 + trial)
+		}
+		j := trial % (len(msg) / 16)
+		target := big.NewInt(int64(trial % 5))
+		if trial%3 == 1 {
+			target = new(big.Int).Sub(P1305(), big.NewInt(int64(1+trial%5)))
+		}
+		x, ok := SolveBlock(key, msg, j, target)
+		if !ok {
+			continue
+		}
+		solved++
+		copy(msg[16*j:], x[:])
+		acc := Poly1305Acc(key, msg)
+		if acc.Cmp(target) != 0 {
+			t.Fatalf("trial %d: acc %v want %v", trial, acc, target)
+		}
+		tag := Poly1305(key, msg)
+		sum := new(big.Int).Add(acc, PolyS(key))
+		sum.Mod(sum, new(big.Int).Lsh(big.NewInt(1), 128))
+		if leToInt(tag[:]).Cmp(sum) != 0 {
+			t.Fatalf("trial %d: tag != acc+s", trial)
+		}
+	}
+	if solved < 50 {
+		t.Fatalf("only %d solved", solved)
 	}
 }
